@@ -412,6 +412,15 @@ class _UnstableDFA:
         return False
 
 
+def _clear_load_memo():
+    """forget what load_dfa_for_perm memoised (an lru_cache today; any other representation is left alone)"""
+    f = _PW.load_dfa_for_perm
+    for g in (f, getattr(f, "__func__", None)):
+        if g is not None and hasattr(g, "cache_clear"):
+            g.cache_clear()
+            return
+
+
 def _impl_db_inner(init, ops):
     d = _workdir()
     old = os.getcwd()
@@ -419,7 +428,7 @@ def _impl_db_inner(init, ops):
     outs = []
     try:
         os.chdir(d)
-        _PW.load_dfa_for_perm.cache_clear()
+        _clear_load_memo()
 
         def junk(p):
             os.makedirs(os.path.dirname(_dbfile(p)), exist_ok=True)
@@ -436,7 +445,7 @@ def _impl_db_inner(init, ops):
                     shutil.copyfile(os.path.join(REPO, _dbfile(p)), _dbfile(p))
                 else:
                     _PW.store_dfa_for_perm(_Perm(p), _fresh(pseq(qs))[0])
-            _PW.load_dfa_for_perm.cache_clear()
+            _clear_load_memo()
         if ops != "-":
             for o in ops.split("+"):
                 t = o.split(":")
@@ -473,7 +482,7 @@ def _impl_db_inner(init, ops):
                 elif t[0] == "c":
                     _PW.create_dfa_db_for_length(int(t[1]))
                 elif t[0] == "x":
-                    _PW.load_dfa_for_perm.cache_clear()
+                    _clear_load_memo()
                 elif t[0] == "j":
                     junk(pseq(t[1]))
                 elif t[0] == "b":
@@ -500,7 +509,7 @@ def _impl_db_inner(init, ops):
         return "|".join(outs) if outs else "-"
     finally:
         os.chdir(old)
-        _PW.load_dfa_for_perm.cache_clear()
+        _clear_load_memo()
         _empty(d, keep_dirs=True)
 
 
